@@ -242,6 +242,12 @@ def _q(q):
     return "inf" if q == "inf" else float(q)
 
 
+def sort_vectors(dump_path: str):
+    out, _ = vectors(dump_path)
+    out = [v for v in out if v["kind"] in ("glexsort", "glexindex")]
+    return out, {"vectors": len(out)}
+
+
 def run_sort_vector(vec, tid: str, prop: str, variant: int = 0) -> dict:
     """MC_Sort vectors on glexsort / glexindex / bindex / monomial."""
     reset_options()
